@@ -131,8 +131,9 @@ class SeqModel:
                            f'DONE answered {st.cond}: {st.raw!r}'))
         elif ev['name'] == 'IDLE':
             st = ctx.do(si, b'IDLE')
-            if st.tagged is None and st.responses and \
-                    st.responses[-1].kind == 'cont':
+            if st.tagged is None and any(r.kind == 'cont'
+                                         for r in st.responses):
+                # (pending updates may follow '+ Idling.' at once)
                 idle.add(si)
             else:
                 out.append(Violation('idle-start', 'IDLE',
